@@ -14,13 +14,25 @@
                                                                     = SectionItems.mnemonic_compare
      standardize_pin          Model/Writer.standardize             = writer.standardize_value
      route_pin                Model/Read.route                     = the section-letter chain of LASFile.read
+     order_of_pin             Model/Writer.order_of                = writer.get_section_order_function
+     format_item_pin          Model/Writer.format_item             = writer.get_formatter_function
+     widths_pin               the two widths of Writer.section_lines = writer.get_section_widths (+ HeaderItem.__getitem__)
+     num_pin                  Model/Num.num                        = SectionParser.num (np.int64 / np.float64 / np.isfinite
+                                                                      are operations of num_ops, read by num_hval_ops)
+     curves_pin, params_pin, metadata_pin   SectionParse.build_item = SectionParser.curves / params / metadata
+     header_fields_pin        HeaderLine.read_header_line's use of the groups = the m.groupdict() loop of read_header_line
+     json_value_pin, json_sample_pin   Export.json_of_value / json_of_sample = las._json_value + json's own dispatch
+     section_contains_pin, section_getitem_pin   Items.contains / getitem (str key) = SectionItems.__contains__ / __getitem__
 
-   One file per pinned function (FuncsPinConfigure, FuncsPinSectionType, FuncsPinRoute,
-   FuncsPinSectionParse, FuncsPinItems, FuncsPinStandardize; shared lemmas in FuncsPinsLib), so
+   One file per pinned function or group (FuncsPinConfigure, FuncsPinSectionType, FuncsPinRoute,
+   FuncsPinSectionParse, FuncsPinItems, FuncsPinStandardize, FuncsPinWriter, FuncsPinNum, FuncsPinParser,
+   FuncsPinHeaderLine, FuncsPinJson, FuncsPinSection; shared lemmas in FuncsPinsLib), so
    that a property depends only on the pins of the functions it relies on; this file
    re-exports them all.
 
    What the generated side means is fixed by the prelude of Gen/Funcs.v (pyo_find, pyo_slice,
    pyo_item, ... : Python's find / slicing / indexing rules over code-point lists). *)
 Require Export FuncsPinsLib FuncsPinConfigure FuncsPinSectionType FuncsPinSectionParse FuncsPinItems
-  FuncsPinStandardize FuncsPinRoute.
+  FuncsPinStandardize FuncsPinRoute FuncsPinWriter FuncsPinNum FuncsPinParser FuncsPinHeaderLine FuncsPinJson.
+(* FuncsPinSection is not re-exported here: Model/Items.v and Funcs.v both have fields named it_unit / it_value /
+   it_descr; import it on its own. *)
